@@ -483,8 +483,9 @@ def run(repo: Repo, R: Report) -> None:
         "typing.cast/isinstance/bool/type/id and the Payload constructor do not raise",
         "for the per-node rule only node execution (_submit_and_wait / node.process), explicit raise statements and _publish are failure points; the orchestrator's own bookkeeping helpers are covered by C10's containment rules",
     )
-    R.undecided("schema validity of free-form content (meta, summaries, error text)", "disk faults while writing",
-                "a mapping with keys of mixed types passes the sanitisers' probe json.dumps(obj) but not the driver's json.dumps(record, sort_keys=True)")
+    R.undecided("schema validity of free-form content (meta, summaries, error text)", "disk faults while writing")
+    # (the probe / writer option mismatch for mappings with keys of mixed types was repaired in /repo d64f5eb and is
+    # decided by C10-D1-sinks-accept-sanitised-values)
     drivers, fold = X.drivers, X.fold
 
     # ------------------------------------------------------------------ D1a pipeline bracket
